@@ -447,4 +447,7 @@ pub assume_specification [char::is_numeric](c: char) -> (r: bool) ensures r == c
 pub assume_specification [char::is_ascii](c: &char) -> (r: bool) ensures r == char_pred_spec(5, *c);
 pub assume_specification [char::is_ascii_alphabetic](c: &char) -> (r: bool) ensures r == char_pred_spec(6, *c);
 pub assume_specification [char::is_ascii_hexdigit](c: &char) -> (r: bool) ensures r == char_pred_spec(7, *c);
+pub assume_specification [char::is_ascii_whitespace](c: &char) -> (r: bool) ensures r == char_pred_spec(8, *c);
+pub assume_specification [char::is_ascii_punctuation](c: &char) -> (r: bool) ensures r == char_pred_spec(9, *c);
+pub assume_specification [char::is_control](c: char) -> (r: bool) ensures r == char_pred_spec(10, c);
 } // verus!
